@@ -136,6 +136,18 @@ let run (args : String.t list) =
         | ["FSM"; id; d; hold; ap] -> Printf.printf "FSM %s %s\n" id (fsm_case (d = "1") (int_of_string hold) ap "")
         | ["FRM"; id; chunks] -> Printf.printf "FRM %s %s\n" id (frm_case chunks)
         | ["SCK"; id; _mode; chunks] -> Printf.printf "SCK %s %s\n" id (sck_case chunks)
+        | ["RDS"; id; _k; h] ->
+          (* read_exact makes the chunking of the source invisible: the model has no k *)
+          let rec split n l = if n = 0 then ([], l) else match l with [] -> ([], []) | x :: t -> let (a, b) = split (n - 1) t in (x :: a, b) in
+          let rec go src cnt acc =
+            if cnt = 0 then List.rev acc else
+            let (h18, avail) = split 18 src in
+            match read_message h18 avail with
+            | Ok None -> List.rev ("none" :: acc)
+            | Err -> List.rev ("E" :: acc)
+            | Panic -> List.rev ("PANIC" :: acc)
+            | Ok (Some b) -> go (snd (split (List.length b) src)) (cnt - 1) (("ok:" ^ hex_of_bytes b) :: acc) in
+          Printf.printf "RDS %s %s\n" id (String.concat "," (go (bytes_of_hex h) 64 []))
         | ["RDM"; id; h] ->
           let src = bytes_of_hex h in
           let rec split k l = if k = 0 then ([], l) else match l with x :: tl -> let (a, r) = split (k - 1) tl in (x :: a, r) | [] -> ([], []) in
